@@ -29,7 +29,7 @@ Qed.
 (* same state except for the strictness flag *)
 Definition lenient_of (s : pstate) : pstate :=
   mkPS (ps_before s) (ps_after s) (ps_first_line s) (ps_last s) (ps_seq s) (ps_log s) false (ps_ver s)
-       (ps_nfiles s) (ps_ftab s) (ps_pos s) (ps_kept s).
+       (ps_nfiles s) (ps_ftab s) (ps_pos s) (ps_kept s) (ps_specs s) (ps_a2ml s).
 
 (* [m] succeeds in non-strict mode whenever it succeeds in strict mode, with the same value and the same state *)
 Definition sim {A} (m : M A) : Prop :=
